@@ -1568,7 +1568,7 @@ class UWG(object):
         self.r_glaze_total = 0.
         self.SHGC_total = 0.
         self.alb_wall_total = 0.
-        h_floor = self.flr_h or 3.05  # average floor height
+        h_floor = 3.05 if self.flr_h is None else self.flr_h  # average floor height
 
         total_urban_bld_area = math.pow(self.charlength, 2) * self.blddensity * \
             self.bldheight / h_floor  # total building floor area
@@ -1602,17 +1602,17 @@ class UWG(object):
                     self.BEM[k].fl_area = frac * total_urban_bld_area
 
                     # Overwrite with optional parameters if provided
-                    if self.glzr:
+                    if self.glzr is not None:
                         self.BEM[k].building.glazing_ratio = self.glzr
-                    if self.albroof:
+                    if self.albroof is not None:
                         self.BEM[k].roof.albedo = self.albroof
-                    if self.vegroof:
+                    if self.vegroof is not None:
                         self.BEM[k].roof.vegcoverage = self.vegroof
-                    if self.shgc:
+                    if self.shgc is not None:
                         self.BEM[k].building.shgc = self.shgc
-                    if self.albwall:
+                    if self.albwall is not None:
                         self.BEM[k].wall.albedo = self.albwall
-                    if self.flr_h:
+                    if self.flr_h is not None:
                         self.BEM[k].building.floor_height = self.flr_h
 
                     # Keep track of total urban r_glaze, SHGC, and alb_wall for UCM model
